@@ -258,8 +258,8 @@ GEN_INV = [
 ]
 
 
-def gen_inv(acc, extra=()):
-    return [cl(c.label, c.text.replace("{acc}", acc), " ".join(sorted(c.tags))) for c in GEN_INV] + list(extra)
+def gen_inv(acc, extra=(), skip=()):
+    return [cl(c.label, c.text.replace("{acc}", acc), " ".join(sorted(c.tags))) for c in GEN_INV if c.label not in skip] + list(extra)
 
 
 POPULATED = [cl("populated_demes", "forall(lambda l, i: imp(0 <= l < len(tree._levels) and 0 <= i < len(tree._levels[l]), "
@@ -268,7 +268,9 @@ INNER = [cl("inv_level", "0 <= a and a < len(tree._levels) - 1 and level == tree
 refine(SG + "NBC_Generator.__call__", SG + "SproutCandidatesGenerator.__call__",
        locals={"candidates": "dict[ref:AbstractDeme,ref:DemeCandidates]"},
        requires=POPULATED,
-       ghost_after={"DemeCandidates@0": ["setg(_call_result, '$cdict', candidates)", "setg(_call_result, '$ckey', deme)"]},
+       ghost_after={"DemeCandidates@0": ["setg(_call_result, '$cdict', candidates)", "setg(_call_result, '$ckey', deme)"],
+                    "cluster@0": ["lemma('cluster_seeds_are_from_the_population', forall(lambda j: imp(0 <= j < len(_call_result), "
+                                  "Member(_call_result[j], cur_pop(deme))), pat=_call_result[j]), 'C10')"]},
        loops={0: dict(index="a", modifies=[], local_frame=[("$dict", "o == candidates")], invariant=gen_inv("candidates")),
               1: dict(index="b", modifies=[], local_frame=[("$dict", "o == candidates")], invariant=gen_inv("candidates", INNER))})
 
@@ -285,8 +287,10 @@ refine(SG + "BestPerDeme.__call__", SG + "SproutCandidatesGenerator.__call__",
        requires=POPULATED,
        ghost_after={"DemeCandidates@0": ["setg(_call_result, '$cdict', cands)", "setg(_call_result, '$ckey', deme)"]},
        loops={0: dict(index="a", acc="cands", acc_type="dict[ref:AbstractDeme,ref:DemeCandidates]", modifies=[],
-                      local_frame=[("$dict", "o == cands")], invariant=gen_inv("cands", BEST)),
-              1: dict(index="b", modifies=[], local_frame=[("$dict", "o == cands")], invariant=gen_inv("cands", BEST + INNER))},
+                      local_frame=[("$dict", "o == cands")], invariant=gen_inv("cands", BEST, skip=("inv_from_population",))),
+              # (membership in the current population is part of IsCurrentBest: no separate invariant)
+              1: dict(index="b", modifies=[], local_frame=[("$dict", "o == cands")],
+                      invariant=gen_inv("cands", BEST + INNER, skip=("inv_from_population",)))},
        ensures=[cl("proposes_exactly_the_current_best", "forall(lambda k: imp(0 <= k < len(result.keys()), "
                    "len(result[result.keys()[k]].individuals) == 1 and "
                    "IsCurrentBest(result[result.keys()[k]].individuals[0], result.keys()[k])), pat=result.keys()[k])", tags="C10 C13")])
